@@ -4,7 +4,7 @@
   Kevo.Model.ConcCore are in Kevo.Proofs.ConcTable.
 -/
 import Kevo.Model.ConcCore
-namespace Kevo.Conc
+namespace Kevo.LConc
 
 /-- one syntactic access site: which field, write?, via sync/atomic?, the locks certainly held there. -/
 structure Site where
@@ -49,4 +49,4 @@ def rankOf (ranks : List Nat) (m : Lock) : Nat := ranks.getD m 0
 def ranksOK (edges : List (Lock × Lock)) (ranks : List Nat) : Bool :=
   edges.all (fun e => rankOf ranks e.1 < rankOf ranks e.2)
 
-end Kevo.Conc
+end Kevo.LConc
